@@ -36,6 +36,12 @@ NearStreams == {<<r>> : r \in Recs}
                \cup (IF Tier = "q" THEN {<<a, r>> : a \in {Rec("sha256", 48, 1, 0, "ok")}, r \in NbrRecs}
                                         \cup {<<r, a>> : r \in NbrRecs, a \in {Rec("x509", 64, 2, 0, "ok")}}
                      ELSE {<<a, r>> : a \in GoodRecs, r \in Recs} \cup {<<r, a>> : r \in Recs, a \in GoodRecs})
+(* a list that ends exactly at 64 KiB / 1 MiB of input (limits are usually powers of two), alone, followed by a good list, by a list cut *)
+(* short and by garbage                                                                                                                *)
+BigRecs == {Rec("x509", 65536 - 28, 1, 0, "ok"), Rec("x509", 1048576 - 28, 1, 0, "ok")}
+BigStreams == {<<b>> : b \in BigRecs} \cup {<<b, r>> : b \in BigRecs, r \in {Rec("sha256", 48, 1, 0, "ok"), Rec("sha256", 48, 2, 0, "minus1"), Rec("x509", 64, 1, 0, "plus1")}}
+BigInit == \E s \in BigStreams, g \in {0, 1, 8} : \E c \in {PhysLen(s) + g, PhysLen(s) + g - 1, PhysLen(SubSeq(s, 1, 1)), PhysLen(SubSeq(s, 1, 1)) + 1, PhysLen(SubSeq(s, 1, 1)) + 27} :
+             c >= 0 /\ c <= PhysLen(s) + g /\ Start([s |-> s, g |-> g, cut |-> c])
 NearInit == \E s \in NearStreams, g \in {0, 1, 28} : \E c \in Cuts(s, g) : Start([s |-> s, g |-> g, cut |-> c])
 
 (* well-formed streams (C07) *)
